@@ -864,12 +864,63 @@ func raceEncRot(h *raceH, p *prng, rounds int) {
 // definition -- takes its time, once: it announces that validation is under way and waits until the
 // competing call has returned, or 30 ms
 type hookNode struct {
-	ty   eventlogger.NodeType
-	once sync.Once
-	hook func()
+	ty    eventlogger.NodeType
+	once  sync.Once
+	hook  func()
+	calls int32 // Process calls
+}
+
+// gateNode: a root filter; the first Process call across the nodes sharing `once` says which pipeline it
+// belongs to and waits to be released
+type gateNode struct {
+	k       int
+	once    *sync.Once
+	parked  chan int
+	release chan struct{}
+}
+
+func (g *gateNode) Process(ctx context.Context, e *eventlogger.Event) (*eventlogger.Event, error) {
+	g.once.Do(func() {
+		g.parked <- g.k
+		select {
+		case <-g.release:
+		case <-time.After(2 * time.Second):
+		}
+	})
+	return e, nil
+}
+func (g *gateNode) Reopen() error              { return nil }
+func (g *gateNode) Type() eventlogger.NodeType { return eventlogger.NodeTypeFilter }
+
+// slowTypeNode: Type() takes a while every time it is asked
+type slowTypeNode struct {
+	hookNode
+	each func()
+}
+
+func (n *slowTypeNode) Type() eventlogger.NodeType {
+	n.each()
+	return n.ty
+}
+
+// hookCloser: a hookNode that is a Closer; its Close takes its time once (closeHook) and counts
+type hookCloser struct {
+	hookNode
+	closeOnce sync.Once
+	closeHook func()
+	closes    int32
+}
+
+func (n *hookCloser) Close(ctx context.Context) error {
+	atomic.AddInt32(&n.closes, 1)
+	if n.closeHook != nil {
+		n.closeOnce.Do(n.closeHook)
+	}
+	return nil
 }
 
 func (n *hookNode) Process(ctx context.Context, e *eventlogger.Event) (*eventlogger.Event, error) {
+	atomic.AddInt32(&n.calls, 1)
 	if n.ty == eventlogger.NodeTypeSink {
 		return nil, nil
 	}
@@ -888,6 +939,89 @@ func (n *hookNode) Type() eventlogger.NodeType {
 func raceTypeHook(h *raceH, p *prng, rounds int) {
 	ctx := context.Background()
 	for r := 0; r < rounds; r++ {
+		// two RemoveNode calls for one node overlapping (the second arrives while the node is being closed):
+		// the node is closed once, one of the calls finds nothing to remove
+		{
+			b, _ := eventlogger.NewBroker()
+			inClose := make(chan struct{})
+			yDone := make(chan struct{})
+			hc := &hookCloser{hookNode: hookNode{ty: eventlogger.NodeTypeSink}}
+			hc.closeHook = func() {
+				close(inClose)
+				select {
+				case <-yDone:
+				case <-time.After(30 * time.Millisecond):
+				}
+			}
+			b.RegisterNode("c", hc)
+			var errX error
+			xDone := make(chan struct{})
+			go func() { errX = b.RemoveNode(ctx, "c"); close(xDone) }()
+			select {
+			case <-inClose:
+				errY := b.RemoveNode(ctx, "c")
+				close(yDone)
+				<-xDone
+				if n := atomic.LoadInt32(&hc.closes); n != 1 || (errX == nil && errY == nil) {
+					h.oracle("C06 two overlapping RemoveNode calls for one node (the second made while the node was being closed): the node was closed %d times, the calls returned %v and %v: a node is closed once, and only one call removes it", n, errX, errY)
+					h.oracle("C04 two overlapping RemoveNode calls for one node closed it %d times (%v, %v): no sequential order explains it", n, errX, errY)
+				}
+			case <-xDone:
+				close(yDone)
+			}
+			h.st.Cases++
+			h.st.hit("typehook:remove-remove")
+		}
+		// a registration that fails validation while a Send is on its way through the type's pipelines: the
+		// refused chain never receives an event, the pipeline it was to replace gets the event
+		{
+			b, _ := eventlogger.NewBroker()
+			parked := make(chan int, 1)
+			release := make(chan struct{})
+			var gateOnce sync.Once
+			mkGate := func(k int) *gateNode {
+				return &gateNode{k: k, once: &gateOnce, parked: parked, release: release}
+			}
+			sinks := [3]*hookNode{nil, {ty: eventlogger.NodeTypeSink}, {ty: eventlogger.NodeTypeSink}}
+			for k := 1; k <= 2; k++ {
+				b.RegisterNode(eventlogger.NodeID(fmt.Sprintf("g%d", k)), mkGate(k))
+				b.RegisterNode(eventlogger.NodeID(fmt.Sprintf("f%d", k)), &hookNode{ty: eventlogger.NodeTypeFormatter})
+				b.RegisterNode(eventlogger.NodeID(fmt.Sprintf("s%d", k)), sinks[k])
+				b.RegisterPipeline(eventlogger.Pipeline{PipelineID: eventlogger.PipelineID(fmt.Sprintf("p%d", k)), EventType: "t",
+					NodeIDs: []eventlogger.NodeID{eventlogger.NodeID(fmt.Sprintf("g%d", k)), eventlogger.NodeID(fmt.Sprintf("f%d", k)), eventlogger.NodeID(fmt.Sprintf("s%d", k))}})
+			}
+			var relOnce sync.Once
+			letGo := func() { relOnce.Do(func() { close(release) }); time.Sleep(20 * time.Millisecond) }
+			hf := &slowTypeNode{hookNode: hookNode{ty: eventlogger.NodeTypeFilter}, each: letGo}
+			hs := &slowTypeNode{hookNode: hookNode{ty: eventlogger.NodeTypeSink}, each: letGo}
+			b.RegisterNode("hf", hf)
+			b.RegisterNode("hs", hs)
+			sendDone := make(chan struct{})
+			go func() { b.Send(ctx, "t", "x"); close(sendDone) }()
+			var first int
+			select {
+			case first = <-parked:
+			case <-time.After(2 * time.Second):
+			}
+			if first != 0 {
+				other := 3 - first
+				// [filter, sink] in place of the pipeline the Send has not reached yet: refused (no formatter)
+				errX := b.RegisterPipeline(eventlogger.Pipeline{PipelineID: eventlogger.PipelineID(fmt.Sprintf("p%d", other)), EventType: "t", NodeIDs: []eventlogger.NodeID{"hf", "hs"}})
+				relOnce.Do(func() { close(release) })
+				<-sendDone
+				if errX == nil {
+					h.oracle("C05 a pipeline [filter, sink] (no formatter before the sink) was registered")
+				} else if n := atomic.LoadInt32(&hs.calls) + atomic.LoadInt32(&hf.calls); n != 0 || atomic.LoadInt32(&sinks[other].calls) != 1 {
+					h.oracle("C05 RegisterPipeline refused a definition that is not well formed (%v); a Send that was on its way through the type's pipelines meanwhile was processed %d times by the refused chain and %d times by the pipeline it was to replace: a failing RegisterPipeline leaves the pipelines that receive events as they were", errX, n, atomic.LoadInt32(&sinks[other].calls))
+					h.oracle("C04 a refused RegisterPipeline had an effect on a Send that overlapped it (refused chain %d events, replaced pipeline %d)", n, atomic.LoadInt32(&sinks[other].calls))
+				}
+			} else {
+				relOnce.Do(func() { close(release) })
+				<-sendDone
+			}
+			h.st.Cases++
+			h.st.hit("typehook:refused-visible")
+		}
 		for _, variant := range []string{"deny", "remove-node", "deny-deny", "new-type"} {
 			b, _ := eventlogger.NewBroker()
 			inV := make(chan struct{})
